@@ -197,7 +197,7 @@ def load_tasks(namespace, command_names=(), allow_delayed=False, args=(),
     # Save only args that do not start with `-` (potentially task names)
     arg_pos = {}
     for index, term in enumerate(args):
-        if term[0] != '-':
+        if term[:1] != '-':
             arg_pos[term] = index
 
     for name, ref, _ in funcs:
